@@ -2,6 +2,7 @@ package main
 
 import (
 	"bytes"
+	"crypto/sha256"
 	"encoding/json"
 	"fmt"
 	"strings"
@@ -17,10 +18,20 @@ import (
 )
 
 type kpCase struct {
-	Kt  string            `json:"kt"`
-	P   keyfactory.Params `json:"p"`
-	Ok  bool              `json:"ok"`
-	Rep bool              `json:"rep"`
+	Kt   string            `json:"kt"`
+	P    keyfactory.Params `json:"p"`
+	Ok   bool              `json:"ok"`
+	Rep  bool              `json:"rep"`  // key-level: the proto key message can carry the parameters
+	Trep bool              `json:"trep"` // template-level
+}
+
+// val logs a serialized value: hex, or (for long values) its SHA-256 and length -- TLC only compares for equality.
+func val(b []byte) string {
+	if len(b) <= 160 {
+		return vt.Hex(b)
+	}
+	h := sha256.Sum256(b)
+	return fmt.Sprintf("sha256:%s:%d", vt.Hex(h[:]), len(b))
 }
 
 var classes = []string{"random", "zero", "leadzero", "maxid", "id0"}
@@ -63,7 +74,9 @@ func runKP(w *vt.Writer, casesPath, replay string) {
 			P json.RawMessage `json:"p"`
 		}
 		json.Unmarshal(raw, &pj)
-		w.Emit(doCase(i, c, pj.P))
+		for _, ev := range doCase(i, c, pj.P) {
+			w.Emit(ev)
+		}
 	}
 }
 
@@ -72,16 +85,17 @@ func emptyTpl() map[string]any {
 		"ser2": false, "url2": "", "prefix2": "", "value2": "", "panic": false}
 }
 
-func doCase(n int, c kpCase, rawP json.RawMessage) vt.Ev {
-	ev := vt.Ev{"ev": "kp", "n": n, "kt": c.Kt, "p": rawP, "rep": c.Rep, "panic": false, "accepted": false, "tpl": emptyTpl(), "keys": []any{}}
+// doCase returns the "params" event of a record and, when the constructor accepted it, its "keys" event.
+func doCase(n int, c kpCase, rawP json.RawMessage) []vt.Ev {
+	ev := vt.Ev{"ev": "params", "n": n, "kt": c.Kt, "p": rawP, "rep": c.Trep, "panic": false, "accepted": false, "tpl": emptyTpl()}
 	var params key.Parameters
 	var err error
 	if try(func() { params, err = keyfactory.NewParameters(c.Kt, c.P) }) {
 		ev["panic"] = true
-		return ev
+		return []vt.Ev{ev}
 	}
 	if err != nil {
-		return ev
+		return []vt.Ev{ev}
 	}
 	ev["accepted"] = true
 	// ---- parameters -> template -> parameters
@@ -92,7 +106,7 @@ func doCase(n int, c kpCase, rawP json.RawMessage) vt.Ev {
 		if err != nil {
 			return
 		}
-		t["ser"], t["url"], t["prefix"], t["value"] = true, tpl.GetTypeUrl(), tpl.GetOutputPrefixType().String(), vt.Hex(tpl.GetValue())
+		t["ser"], t["url"], t["prefix"], t["value"] = true, tpl.GetTypeUrl(), tpl.GetOutputPrefixType().String(), val(tpl.GetValue())
 		p2, err := verifhooks.ParseParameters(tpl)
 		if err != nil || p2 == nil {
 			return
@@ -102,7 +116,7 @@ func doCase(n int, c kpCase, rawP json.RawMessage) vt.Ev {
 		if err != nil {
 			return
 		}
-		t["ser2"], t["url2"], t["prefix2"], t["value2"] = true, tpl2.GetTypeUrl(), tpl2.GetOutputPrefixType().String(), vt.Hex(tpl2.GetValue())
+		t["ser2"], t["url2"], t["prefix2"], t["value2"] = true, tpl2.GetTypeUrl(), tpl2.GetOutputPrefixType().String(), val(tpl2.GetValue())
 	}) {
 		t["panic"] = true
 	}
@@ -117,8 +131,7 @@ func doCase(n int, c kpCase, rawP json.RawMessage) vt.Ev {
 			keys = append(keys, doKey(c, kind, class, params, int64(n)*64+int64(ci)))
 		}
 	}
-	ev["keys"] = keys
-	return ev
+	return []vt.Ev{ev, {"ev": "keys", "n": n, "kt": c.Kt, "p": rawP, "rep": c.Rep, "keys": keys}}
 }
 
 func idStr(id uint32, has bool) string {
@@ -149,7 +162,7 @@ func doKey(c kpCase, kind, class string, params key.Parameters, stream int64) ma
 			return
 		}
 		r["ser"], r["url"], r["prefix"] = true, ks.KeyData.GetTypeUrl(), ks.OutputPrefixType.String()
-		r["material"], r["idreq"], r["value"] = ks.KeyData.GetKeyMaterialType().String(), idStr(ks.IDRequirement, ks.HasIDRequirement), vt.Hex(ks.KeyData.GetValue())
+		r["material"], r["idreq"], r["value"] = ks.KeyData.GetKeyMaterialType().String(), idStr(ks.IDRequirement, ks.HasIDRequirement), val(ks.KeyData.GetValue())
 		k2, err := verifhooks.ParseKey(ks)
 		if err != nil || k2 == nil {
 			return
@@ -160,7 +173,7 @@ func doKey(c kpCase, kind, class string, params key.Parameters, stream int64) ma
 			return
 		}
 		r["ser2"], r["url2"], r["prefix2"] = true, ks2.KeyData.GetTypeUrl(), ks2.OutputPrefixType.String()
-		r["material2"], r["idreq2"], r["value2"] = ks2.KeyData.GetKeyMaterialType().String(), idStr(ks2.IDRequirement, ks2.HasIDRequirement), vt.Hex(ks2.KeyData.GetValue())
+		r["material2"], r["idreq2"], r["value2"] = ks2.KeyData.GetKeyMaterialType().String(), idStr(ks2.IDRequirement, ks2.HasIDRequirement), val(ks2.KeyData.GetValue())
 		if eq, err := verifhooks.KeySerializationEqual(ks, ks2); err == nil {
 			r["serEqual"] = eq
 		}
